@@ -98,6 +98,16 @@ def table_from_patients(patients: list[dict], mod_names, lnl_names, sides=("ipsi
                 row.append(p["find"].get(c[0], {}).get(c[1], {}).get(c[2]))
         rows.append(row)
     df = pd.DataFrame(rows, columns=pd.MultiIndex.from_tuples(cols), dtype=object)
+    # the row labels of a table carry no meaning: vary them deterministically with the content (default range,
+    # duplicated labels as after pd.concat without ignore_index, strings, descending integers)
+    n = len(rows)
+    variant = (n + len(cols) + sum(1 for r in rows for v in r if v is True)) % 4
+    if n and variant == 1:
+        df.index = pd.Index([i % max(1, (n + 1) // 2) for i in range(n)])
+    elif n and variant == 2:
+        df.index = pd.Index([f"p{(5 * i) % 7}" for i in range(n)], dtype=object)
+    elif n and variant == 3:
+        df.index = pd.Index([n + 3 - i for i in range(n)])
     return df
 
 
@@ -204,6 +214,23 @@ def prime_modality_order(m, case, query):
     if len(mods) < 2:
         return
     order = list(mods)
+    if (len(mods) + sum(len(x[0]) for x in mods) + int(mods[0][1] * 16)) % 2:   # case-dependent variant
+        # rotated order (delete + re-add the first), query, then replace_all_modalities with the case's own order
+        # (names re-used at other positions: replace_all_modalities must give the NEW collection's order)
+        from lymph.modalities import Clinical, Pathological
+        tri = case["graph"]["base"] == 3
+
+        def coll(ms):
+            return {n: (Pathological if k == "pathological" else Clinical)(sp, sn, tri) for n, sp, sn, k in ms}
+        name, spec, sens, kind = order[0]
+        m.del_modality(name)
+        m.set_modality(name, spec, sens, kind)          # now listed last
+        try:
+            query(m)
+        except Exception:  # noqa: BLE001
+            pass
+        m.replace_all_modalities(coll(order))           # every name re-used, the first one at another position
+        return
 
     def rotate():
         name, spec, sens, kind = order.pop(0)
